@@ -22,6 +22,16 @@ package agent
 // samePrefix(L, P): L starts with the elements of P (quantified over positions of L's backing array, which keeps the trigger free of arithmetic)
 //@ pure samePrefix(L []string, P []string) bool = len(L) >= len(P) && (forall k int :: off(L) <= k && k < off(L) + len(P) ==> elems(L)[k] == elems(P)[k - off(L) + off(P)])
 
+// strict peering: a local peer is kept only when the pool lists the same node id under the same remote host
+//@ pure parseOK(x string) bool = uf("ethnode.ParseNodeURI", 1, x) == nil
+//@ pure hostOf(x string) string = uf("ethnode.(*NodeURI).RemoteHost", 0, uf("ethnode.ParseNodeURI", 0, x))
+//@ pure nidOf(x string) string = uf("ethnode.(*NodeURI).ID", 0, uf("ethnode.ParseNodeURI", 0, x))
+//@ pure euri(p ethnode.PeerInfo) string = uf("ethnode.(*PeerInfo).EnodeURI", 0, p)
+//@ pure listed(active []string, x string) bool = parseOK(x) && (exists q int :: off(active) <= q && q < off(active) + len(active)
+//@        && parseOK(elems(active)[q]) && nidOf(elems(active)[q]) == nidOf(x) && hostOf(elems(active)[q]) == hostOf(x))
+//@ pure unTrusted(x string) bool = exists i int :: old(rmlen) <= i && i < rmlen && rmarg[i] == x
+//@ pure keptBy(lookup map[string]string, x string) bool = parseOK(x) && has(lookup, nidOf(x)) && lookup[nidOf(x)] == hostOf(x)
+
 //@ func (*Agent).AddPeers
 //@ property C18
 //@ requires !held(a.mu)
@@ -55,14 +65,23 @@ package agent
 //@            && (forall j int :: old(dclen) <= j && j < old(dclen) + len(lastInvalid) ==> dcarg[j] == idOf(lastInvalid[j - old(dclen)]))
 //@ ensures [non-strict-drops-nobody-else] poolcalls > old(poolcalls) && lastUpdateOK && !a.StrictPeers ==>
 //@            rmlen == old(rmlen) + len(lastInvalid) && dclen == old(dclen) + len(lastInvalid)
+//@ ensures [strict-drops-every-unlisted-local-peer] a.StrictPeers && poolcalls > old(poolcalls) && lastUpdateOK ==>
+//@            forall j int :: off(ethnode.lastLocalPeers) <= j && j < off(ethnode.lastLocalPeers) + len(ethnode.lastLocalPeers) ==>
+//@               listed(lastActive, euri(elems(ethnode.lastLocalPeers)[j]))
+//@               || unTrusted(idOf(euri(elems(ethnode.lastLocalPeers)[j])))
 //@ ensures [requests-exactly-the-shortfall] poolcalls > old(poolcalls) && lastUpdateOK ==>
 //@            (a.NumHosts - len(lastActive) > 0 ==> peercalls == old(peercalls) + 1 && lastPeerReq.Num == a.NumHosts - len(lastActive) && lastPeerReq.Kind == ownKind(a))
 //@            && (a.NumHosts - len(lastActive) <= 0 ==> peercalls == old(peercalls) && cnlen == old(cnlen))
 //@ ensures [connects-what-the-pool-returned] forall j int :: old(cnlen) <= j && j < cnlen ==> cnarg[j] == lastPeers[j - old(cnlen)].URI
-//@ modifies poolcalls, lastPoolCall, lastUpdateOK, lastUpdate, lastInvalid, lastActive, peercalls, lastPeerReq, lastPeers, rmlen, rmarg, dclen, dcarg, cnlen, cnarg
-//@ loop 1 invariant [list] update.ActivePeers == lastActive && samePrefix(update.InvalidPeers, lastInvalid)
+//@ modifies poolcalls, lastPoolCall, lastUpdateOK, lastUpdate, lastInvalid, lastActive, peercalls, lastPeerReq, lastPeers, rmlen, rmarg, dclen, dcarg, cnlen, cnarg, ethnode.lastLocalPeers
+//@ loop 0 invariant [lookup-sound] lookup != nil && update.ActivePeers == lastActive && (forall id string :: has(lookup, id) ==>
+//@        (exists q int :: off(lastActive) <= q && q < off(lastActive) + rangeidx && parseOK(elems(lastActive)[q]) && nidOf(elems(lastActive)[q]) == id && hostOf(elems(lastActive)[q]) == lookup[id]))
+//@ loop 1 invariant [list] update.ActivePeers == lastActive && samePrefix(update.InvalidPeers, lastInvalid) && peers == ethnode.lastLocalPeers
+//@ loop 1 invariant [strict-all] forall j int :: off(peers) <= j && j < off(peers) + rangeidx ==> keptBy(lookup, euri(elems(peers)[j]))
+//@        || (exists q int :: off(update.InvalidPeers) + len(lastInvalid) <= q && q < off(update.InvalidPeers) + len(update.InvalidPeers) && elems(update.InvalidPeers)[q] == euri(elems(peers)[j]))
 //@ loop 2 invariant [log]  dropped(update.InvalidPeers, rangeidx) && dropLogsAppendOnly()
 //@ loop 2 invariant [list] samePrefix(update.InvalidPeers, lastInvalid)
+//@ loop 2 invariant [logged] forall q int :: off(update.InvalidPeers) <= q && q < off(update.InvalidPeers) + rangeidx ==> unTrusted(idOf(elems(update.InvalidPeers)[q]))
 //@ loop 2 invariant [list-current] rangeidx < len(lastInvalid) ==> update.InvalidPeers[rangeidx] == lastInvalid[rangeidx]
 //@ loop 2 invariant [pool-prefix] (forall j int :: old(rmlen) <= j && j < rmlen && j < old(rmlen) + len(lastInvalid) ==> rmarg[j] == idOf(lastInvalid[j - old(rmlen)]))
 //@                         && (forall j int :: old(dclen) <= j && j < dclen && j < old(dclen) + len(lastInvalid) ==> dcarg[j] == idOf(lastInvalid[j - old(dclen)]))
